@@ -24,9 +24,10 @@ Qed.
 Inductive s1plan := S1Ok | S1Fail | S1Gate (ignore_ctx : bool).
 Inductive beplan := BeOk | BeFail | BeBlock.
 Record plan := mkPlan { p_sign : bool; p_topic : N; p_members : list N; p_s1 : s1plan; p_s1then : bool;
-                        p_s2ok : bool; p_be : beplan; p_share : bool }.
+                        p_s2ok : bool; p_be : beplan; p_share : bool;
+                        p_initgate : bool   (* the backend's Init takes long: the session can end while it runs *) }.
 Inductive res := ROk | RErr | RCtx | RRefused.
-Inductive at_ := AtStart | AtGate | AtS2Fail | AtBackend | AtFinished.
+Inductive at_ := AtStart | AtGate | AtInit | AtS2Fail | AtBackend | AtFinished.
 Record sess := mkSess { s_plan : plan; s_api : option res; s_at : at_; s_cancelled : bool }.
 
 Definition table := list (key * N).
@@ -98,30 +99,40 @@ Definition dests_of (sid : N) (p : plan) (parties : list N) : list (N * N * opti
   map (fun to => (sid, to, dest_among mm to (p_members p))) (parties ++ [60000]).
 
 (* registration of the protocol instance by the continuation of the first synchronisation *)
-Definition register (w : world) (sid : N) (p : plan) : world :=
-  mkWorld (tset (syncs w) (k2 p sid) sid) (tset (rbcs w) (k1 p) sid)
-          (if p_sign p then tset (cls w) (k1 p) sid else cls w) (dkg w) (sessions w).
+Definition reg_instance (w : world) (sid : N) (p : plan) : world :=
+  mkWorld (syncs w) (tset (rbcs w) (k1 p) sid) (if p_sign p then tset (cls w) (k1 p) sid else cls w) (dkg w) (sessions w).
+Definition reg_sync2 (w : world) (sid : N) (p : plan) : world :=
+  mkWorld (tset (syncs w) (k2 p sid) sid) (rbcs w) (cls w) (dkg w) (sessions w).
 
-(* the continuation of the first synchronisation (initializeSigningInstance / the runDKG callback) *)
+Definition over (s : sess) : bool := s_cancelled s || (match s_api s with Some _ => true | None => false end).
+
+(* second synchronisation and backend *)
+Definition run_protocol (w1 : world) (sid : N) (p : plan) : world :=
+  if p_s2ok p then
+    match p_be p with
+    | BeBlock => set_at w1 sid AtBackend
+    | BeOk => set_at (finish w1 sid ROk) sid AtFinished
+    | BeFail => set_at (finish w1 sid RErr) sid AtFinished
+    end
+  else if p_sign p then set_at (finish w1 sid RErr) sid AtFinished
+  else set_at w1 sid AtS2Fail.
+
+(* what follows the backend's Init (both KeyGen and Sign initialise the protocol instance BEFORE registering it for
+   dispatch): the context is checked under the lock, then the instance and the second synchronisation are registered *)
+Definition after_init (w : world) (sid : N) (s : sess) : world :=
+  let p := s_plan s in
+  if over s then set_at w sid AtFinished                     (* the session is over: nothing is registered *)
+  else run_protocol (reg_sync2 (reg_instance w sid p) sid p) sid p.
+
+(* the continuation of the first synchronisation (initializeSigningInstance / the runDKG callback), up to Init *)
 Definition callback (w : world) (sid : N) (s : sess) : world * obs :=
   let p := s_plan s in
   match parties_of p with
   | Ok parties =>
       let o := mkObs [(sid, parties)] (dests_of sid p parties) [] false in
       if p_sign p && negb (p_share p) then (set_at (finish w sid RErr) sid AtFinished, obs0)
-      else if s_cancelled s || (match s_api s with Some _ => true | None => false end) then
-        (* the session is over: nothing is registered (Sign has initialised its signer by then, KeyGen has not) *)
-        (set_at w sid AtFinished, if p_sign p then o else obs0)
-      else
-        let w1 := register w sid p in
-        if p_s2ok p then
-          match p_be p with
-          | BeBlock => (set_at w1 sid AtBackend, o)
-          | BeOk => (set_at (finish w1 sid ROk) sid AtFinished, o)
-          | BeFail => (set_at (finish w1 sid RErr) sid AtFinished, o)
-          end
-        else if p_sign p then (set_at (finish w1 sid RErr) sid AtFinished, o)
-        else (set_at w1 sid AtS2Fail, o)
+      else if p_initgate p then (set_at w sid AtInit, o)
+      else (after_init w sid s, o)
   | _ => (set_at (finish w sid RErr) sid AtFinished, obs0)            (* two participants of one party *)
   end.
 
@@ -154,6 +165,7 @@ Definition release (w : world) (sid : N) : world * obs :=
   | Some s =>
       match s_at s with
       | AtGate => if p_s1then (s_plan s) then callback w sid s else (s1_failed w sid, obs0)
+      | AtInit => (after_init w sid s, obs0)
       | _ => (w, obs0)
       end
   | None => (w, obs0)
